@@ -128,6 +128,7 @@ def strip (v : Variant) (adh : Nat) (s : St) : St :=
 def ruleBloom (adh m t a b c : Nat) (h : Nat) : Bloom :=
   if h < adh ∨ h = 0 ∨ m = 0 ∨ h % m ≠ t then 0
   else BitVec.twoPow 2048 (h * a % 2048) ||| BitVec.twoPow 2048 ((h * b + 1) % 2048) ||| BitVec.twoPow 2048 ((h / 3 + c) % 2048)
+    ||| BitVec.twoPow 2048 ((h * 2654435761 + c) % 4294967296 / 2048 % 2048)
 
 def runB (v : Variant) (adh : Nat) (given : Nat → Bloom) (st : Start) (ops : List String) : Option (Option St) :=
   -- outer none = bad op
